@@ -153,6 +153,7 @@ class LifecycleSystem:
                     yield ("reg", i, c)
                 else:
                     yield ("delcell", i, c)
+                    yield ("rereg", i, c)  # a registration under a name in use is refused (ValueError) and must leave no trace
                     if self.with_extra:
                         if m.cells[i][c] is None:
                             yield ("addmon", i, c, "pooled")
@@ -230,6 +231,11 @@ class LifecycleSystem:
                 tr.register_cell(op[2], w.layer.get_cell(op[2], "x"))
                 m.cells[i][op[2]] = None
                 m.data[i][op[2]] = 0
+            elif name == "rereg":
+                try:
+                    tr.register_cell(op[2], w.layer.get_cell(op[2], "x"))
+                except ValueError:
+                    pass
             elif name == "delcell":
                 tr.del_cell(op[2])
                 del m.cells[i][op[2]]
